@@ -9,7 +9,9 @@ import (
 	"log/slog"
 	"os"
 	"path/filepath"
+	"strings"
 	"sync"
+	"time"
 
 	"github.com/benbjohnson/litestream"
 	"github.com/benbjohnson/litestream/file"
@@ -219,6 +221,8 @@ func buildBehindBase(dir string, seed int64) (*behindBase, error) {
 	return b, nil
 }
 
+const sigF11 = "C05/truncated-baseline-after-short-read-in-checkDatabaseBehindReplica-never-recovers"
+
 // start states
 const (
 	stInStep = iota
@@ -269,6 +273,8 @@ func runBehind(base *behindBase, dir string, sp behindSpec, seed int64) (res beh
 	src.db = litestream.NewDB(path)
 	src.db.MonitorInterval = 0
 	src.db.Logger = QuietLogger()
+	src.db.ShutdownSyncTimeout = 2 * time.Second
+	src.db.ShutdownSyncInterval = 50 * time.Millisecond
 	fc := &faultClient{inner: file.NewReplicaClient(filepath.Join(dir, "replica")), localL0: src.db.LTXLevelDir(0)}
 	if err = src.open(fc); err != nil {
 		return
@@ -293,6 +299,8 @@ func runBehind(base *behindBase, dir string, sp behindSpec, seed int64) (res beh
 	changedSinceAck := sp.start != stInStep // the source differs from what the replica holds
 	faultsOver := false
 	needCatchUp := false
+	stuckReported := false
+	shortBaseline := false
 	// one SyncAndWait, decomposed exactly as DB.SyncAndWait does (db.Sync, then Replica.Sync)
 	// so that the local L0 set between the two halves can be observed
 	syncWait := func(ph *phaseFault, label string, whole bool) {
@@ -378,10 +386,21 @@ func runBehind(base *behindBase, dir string, sp behindSpec, seed int64) (res beh
 			lastAckRemote, changedSinceAck = rmax, false
 			needCatchUp = false
 		} else if faultsOver {
-			if needCatchUp {
-				add("C05/no-catch-up-after-open-faults", fmt.Sprintf("%s: faults are over but it still fails: %v (local L0 %v, remote L0 %v)", label, e1, local, remote))
+			if needCatchUp && !stuckReported {
+				stuckReported = true
+				if shortBaseline && strings.Contains(e1.Error(), "ltx file corrupted") {
+					add(sigF11, fmt.Sprintf("start state %s, replica L0 %v: the OpenLTXFile of the baseline file %d returned a short stream (clean EOF after 150 bytes); checkDatabaseBehindReplica published the truncated file locally; from then on %s and every later SyncAndWait fail: %v", startNames[sp.start], remote0, remote0[len(remote0)-1], label, e1))
+				} else {
+					add("C05/no-catch-up-after-open-faults", fmt.Sprintf("%s: faults are over but it still fails: %v (local L0 %v, remote L0 %v)", label, e1, local, remote))
+				}
 			}
 			needCatchUp = true
+		}
+		for _, c := range calls {
+			n := c.(SxList)
+			if SxString(n[0]) == "2" && SxString(n[2]) == "3" {
+				shortBaseline = true
+			}
 		}
 		if !gap {
 			add("C05/gap-or-false-ack", fmt.Sprintf("after %s the remote L0 listing is %v", label, remote))
